@@ -84,10 +84,11 @@ MUTANTS = [
     dict(prop="C32", name="PRESERVING: Haldane_ptb hop written from the other end", file="wannierberri/models.py", old="    my_model.set_hop(hop1, 1, 0, [0, 1])", new="    my_model.set_hop(hop1, 0, 1, [0, -1])", expect="ok"),
     dict(prop="C20", name="average: normalised by the number of operations minus one", file=SYMW, old="                        v /= len(self.use_symmetries_index)", new="                        v /= max(1, len(self.use_symmetries_index) - 1)"),
     dict(prop="C20", name="backward rotation: time reversal without conjugation", file=SYMW, old="                result = result.conj() * self.parity_TR[X]", new="                result = result * self.parity_TR[X]"),
-    dict(prop="C20", name="backward rotation: left and right orbital matrices of the same atom", file=SYMW, old="                                R=self.symmetrizer_right.rot_orb_list[block2][atom_b, isym])", new="                                R=self.symmetrizer_right.rot_orb_list[block2][atom_a % self.symmetrizer_right.rot_orb_list[block2].shape[0], isym])"),
+    dict(prop="C20", name="backward rotation: left orbital matrix not daggered", file=SYMW, old="                                L=self.symmetrizer_left.rot_orb_dagger_list[block1][atom_a, isym],", new="                                L=self.symmetrizer_left.rot_orb_list[block1][atom_a, isym],"),
+    dict(prop="C20", name="average_XX_block: right-hand site permutation taken from the left block", file=SYMW, old="            atommap2 = self.symmetrizer_right.atommap_list[block2][:, isym]", new="            atommap2 = self.symmetrizer_right.atommap_list[block1][:, isym]"),
     dict(prop="C20", name="atom R map: translations of the two atoms added instead of subtracted", file=SYMW, old="            atom_R_map = (R_map[:, None, None, :] + T1[None, :, None, :] - T2[None, None, :, :])", new="            atom_R_map = (R_map[:, None, None, :] + T1[None, :, None, :] + T2[None, None, :, :])"),
     dict(prop="C20", name="AA treated as even under inversion", file=SYMW, old="            'Ham': 1,\n            'AA': -1,", new="            'Ham': 1,\n            'AA': 1,"),
-    dict(prop="C20", name="irreducible search: strict comparison drops self-mapped pairs", file=SYMW, old="                    if (a1, b1) >= (a, b):", new="                    if (a1, b1) > (a, b):"),
+    dict(prop="C20", expect="ok", name="PRESERVING: irreducible search with a strict comparison (more triples than necessary are averaged, each over the whole group)", file=SYMW, old="                    if (a1, b1) >= (a, b):", new="                    if (a1, b1) > (a, b):"),
     dict(prop="C20", name="vector rotation applied to the wrong Cartesian axis", file=SYMW, old="                XX_L = np.tensordot(XX_L, rot_mat_loc, axes=((-n_cart,), (0,)))", new="                XX_L = np.tensordot(XX_L, rot_mat_loc, axes=((-n_cart,), (1,)))"),
     dict(prop="C20", name="centre pass: translation back to the home cell dropped", file="wannierberri/symmetry/sawf.py", old="                        XX_L = symop.transform_r(XX_L) + T[atom_a]", new="                        XX_L = symop.transform_r(XX_L)"),
     dict(prop="C20", name="centre pass: written to the source atom instead of its image", file="wannierberri/symmetry/sawf.py", old="                    WCC_red_out[start_b:start_b + norb] += transformed", new="                    WCC_red_out[start_a:start_a + norb] += transformed"),
